@@ -15,5 +15,6 @@ CONSTANTS
   DrainMode = "inner"
   Strict = FALSE
   WithServe = FALSE
+  Hist = FALSE
 INVARIANTS C06_DrainHolds
 VIEW View
